@@ -35,6 +35,7 @@ ASSUMPTIONS = [
 ALPHABET = [
     "", "-", "--", "---", "--=", "-=", "--alpha", "--alpha=v", "--alpha=", "--zeta", "--zeta=v", "-a", "-av", "-z", "-zv",
     "-ab", "-az", "-a=v", "-1", "null", "w", "x y", "server", "srv", "5", "true", "--beta", "-b", "--beta=7", "-ba",
+    "--a", "--a=v", "--b",  # one-letter names behind two dashes
     "--alph", "--alphb=1",  # unknown names at the same distance from several declared ones (see the last format)
 ]
 
@@ -144,6 +145,10 @@ def mutate(f, case, ch, op):
     if op in ("unknown-long", "unknown-short"):
         i = ch.choice(bnd)
         tok = ch.choice(["--zeta", "--zeta=v", "--alphax"]) if op == "unknown-long" else ch.choice(["-z", "-zv"])
+        shorts = [o["short"] for o in f["opts"] if o["short"]]
+        if op == "unknown-long" and shorts and ch.flip(0.3):
+            # the one-letter name of a declared option behind two dashes: no option has that long name
+            tok = ch.choice(["--%s", "--%s=v"]) % ch.choice(shorts)
         # do not put it between a bare optional-value option and what follows: still one fault, fine
         chunks.insert(i, dict(kind="opt", tokens=[tok]))
         return flat(chunks), "nso"
